@@ -23,7 +23,7 @@ Definition pool_eqb (a b : list (url * N)) : bool :=
    every route filed under the host named by dsthost (or under no host) whose path is a
    prefix of the method path is a candidate ---- *)
 Definition key_allowed (noglob : bool) (host k : str) : bool :=
-  beq k [] || beq (norm_host k) (if noglob then strip80 host else norm_host host).
+  beq k [] || beq (norm_host k) (norm_host host).
 Definition candidates (t : table) (noglob : bool) (host path : str) : list (list url) :=
   flat_map (fun hr => if key_allowed noglob host (fst hr)
                       then map snd (filter (fun r : route => has_prefix path (fst r)) (snd hr))
